@@ -22,7 +22,8 @@ from . import bootstrap  # noqa: F401
 from .oracle import Oracle
 
 PMAT = {"nacl": "F", "naclg": "F"}
-PMAT_NUM = {"F": np.array([[0, 0.5, 0.5], [0.5, 0, 0.5], [0.5, 0.5, 0]]), None: np.eye(3)}
+PMAT_NUM = {"F": np.array([[0, 0.5, 0.5], [0.5, 0, 0.5], [0.5, 0.5, 0]]),
+            "I": np.array([[-0.5, 0.5, 0.5], [0.5, -0.5, 0.5], [0.5, 0.5, -0.5]]), None: np.eye(3)}
 
 # unit conversion factors f of three calculators' unit systems (phonopy.interface.calculator)
 NAC_FACTORS = {"vasp": 14.399652, "qe": 2.0, "abinit": 1.0}
@@ -98,7 +99,7 @@ class NacCase:
         self.Linv = np.linalg.inv(self.L)
         self.a = orc.a
         self.S = cfg["S"]
-        self.pm_name = PMAT.get(cfg["entry"])
+        self.pm_name = cfg["pm"] if "pm" in cfg else PMAT.get(cfg["entry"])
         self.P = PMAT_NUM[self.pm_name]
         self.factor = factor
         self.uc = orc.unitcell()
